@@ -5,8 +5,8 @@ MC : specs/webstatic/SlashRedirect.tla - what @removeslash / @addslash / the sta
      host-like and userinfo-like segments, queries); invariants: every Location the reference
      prescribes is a same-host path, the login redirect is the configured login URL plus an
      escaped ?next=, the acceptance relation never admits an off-site Location.
-S2C: every TLC-enumerated request is sent to real handlers (catch-all routes r"/.*", static
-     r"/(.*)" and r"/+(.*)" with default_filename on the scratch tree, three login_url shapes)
+S2C: every TLC-enumerated request is sent to real handlers (catch-all routes r".*", static
+     r"/(.*)", r"/+(.*)" and r"(.*)" with default_filename on the scratch tree, three login_url shapes)
      over the in-memory server; status / Location compared with the expectation ('exact'), or
      checked not to be the Location TLC marked unsafe ('safe' / 'ifredirect').
 C2S: the same observations plus seeded random requests (longer paths, random escapes) are
@@ -43,6 +43,8 @@ def observe(cfg, args):
 
 def _lead(loc):
     t = W.text_of(loc[:2])
+    if loc and t[0] != "/":
+        return "scheme" if ":" in W.text_of(loc).split("/")[0] else "relative"
     return {"//": "slashslash", "/\\": "slashbackslash"}.get(t, "other" if loc else "none")
 
 
@@ -86,7 +88,7 @@ def record(item):
 SEGS = ["a", "", "evil.com", "\\", "\\evil.com", "%2F", "%5C", "%5cevil.com", "sub", "d", "..", ".", "@evil.com", "http:", "%20", "a&b=c",
         "%2F%2Fevil.com", "x;y", "sub%2F", "~u", "a+b"]
 QUERIES = [None, "", "x=1", "//evil.com", "a=b+c&d=%20", "next=http://evil.com/", "?", "a b".replace(" ", "%20")]
-KINDS = ["removeslash", "addslash", "static1", "static2", "auth_rel", "auth_query", "auth_abs"]
+KINDS = ["removeslash", "addslash", "static1", "static2", "static3", "auth_rel", "auth_query", "auth_abs"]
 
 
 def random_trace(a):
@@ -101,7 +103,10 @@ def random_trace(a):
             segs = [""] * rng.choice([1, 2]) + segs
         if rng.random() < 0.4:
             segs.append("")
-        raw = W.unwire("/" + "/".join(segs))
+        prefix = rng.choice(["", "", "", "http://evil.example", "http://example.com", "https://evil.example:8443"])
+        raw = W.unwire(prefix + "/" + "/".join(segs))
+        if rng.random() < 0.03:
+            raw = W.unwire(rng.choice(["*", "evil.example:80"]))
         q = rng.choice(QUERIES)
         args = [rng.choice(["GET", "GET", "HEAD"]), raw, q is not None, W.chars(q or "")]
         ev.append({"a": "request", "args": args, "obs": observe(cfg, args)})
@@ -127,6 +132,11 @@ def run(ctx):
         paths += W.mc_states(ctx, "webstatic", "SlashRedirect", "MC_SlashRedirect.cfg",
                              overrides={"Methods": {"HEAD", "POST"}, "PathLen": 2, "SegToks": set(toks_t),
                                         "Queries": set(ctx.pick(["noq", "q1"], ["noq", "emptyq", "q1", "qevil"]))}, required_actions=["request"])
+        # request targets that are not origin-form: absolute-form, "*", authority-form
+        paths += W.mc_states(ctx, "webstatic", "SlashRedirect", "MC_SlashRedirect.cfg",
+                             overrides={"Forms": {"absolute", "asterisk", "authority"}, "Methods": {"GET", "HEAD"}, "PathLen": ctx.pick(2, 3),
+                                        "SegToks": set(ctx.pick(["a", "empty", "sub", "dotdot", "pdotdot", "evil"], toks_q)),
+                                        "Queries": {"noq", "q1"}}, required_actions=["request"])
         if not ctx.quick:
             paths += W.mc_states(ctx, "webstatic", "SlashRedirect", "MC_SlashRedirect.cfg",
                                  overrides={"SegToks": set(toks_q), "PathLen": 4, "Queries": {"noq", "q1"}}, required_actions=["request"])
@@ -138,8 +148,9 @@ def run(ctx):
             raise framework.Machinery("vacuity: expectation modes %r" % modes)
         ctx.replay(paths, replayer, nontrivial=lambda e, p: len(p[0]["args"][1]) > 1)
         ctx.cov["exhaustive"] = True
-        sims = ctx.sim_paths("webstatic", "Gen_SlashRedirect", "Gen_SlashRedirect.cfg", num=ctx.pick(20, 300), depth=7, timeout=ctx.pick(900, 1500))
-        ctx.replay(sims, replayer, label="s2c-sim")
+        if not ctx.quick:      # -simulate enumerates every successor per step: ~3 s per walk, thorough tier only
+            sims = ctx.sim_paths("webstatic", "Gen_SlashRedirect", "Gen_SlashRedirect.cfg", num=300, depth=7, timeout=1500)
+            ctx.replay(sims, replayer, label="s2c-sim")
         ctx._phase("mc+s2c", t0)
         t0 = time.time()
         # code -> spec: observations of the enumerated requests (grouped into traces) and of random requests
@@ -168,7 +179,7 @@ def run(ctx):
                            "segments for HEAD/POST; TLC simulation walks; all of them plus random requests validated by TLC via Accept; "
                            "distinct = distinct (configuration, method, target)")
         ctx.cov["trusted_base"] += ["harness/httpsim.split_responses (transport splitter)"]
-        ctx.assumptions.append("absolute-form request targets (GET http://host/ ...) are not generated: browsers never send them to an origin server")
+        ctx.assumptions.append("raw control characters and spaces in the request target are not generated")
     finally:
         _drop()
 
